@@ -75,6 +75,10 @@ def mergeOK (a b out : List KV) : Bool :=
 def encodeRef (emit : Value → Bytes) (s : List KV) : Bytes :=
   (s.map (encodeItem emit)).intersperse [0x2C] |>.flatten
 
+/-- **results are stable**: what a call returned (Sets, dropped slices, the caller's slice, merged
+lists, looked-up values) reads the same after any later calls as it did when it was returned -/
+def resultsStable (atReturn atEnd : List (List (List KV))) : Bool := atReturn == atEnd
+
 end Spec
 end C05
 end Otel
